@@ -805,11 +805,9 @@ static enum cc_stat expand_capacity(CC_ArraySized *ar)
     /* As long as the capacity is greater that the expansion factor
      * at the point of overflow, this is check is valid. */
     if (new_capacity <= ar->capacity) {
-        ar->capacity = CC_MAX_ELEMENTS;
-    } else {
-        ar->capacity = new_capacity;
+        new_capacity = CC_MAX_ELEMENTS;
     }
-    uint8_t *new_buff = ar->mem_alloc(ar->capacity * ar->data_length);
+    uint8_t *new_buff = ar->mem_alloc(new_capacity * ar->data_length);
 
     if (!new_buff) {
         return CC_ERR_ALLOC;
@@ -817,7 +815,8 @@ static enum cc_stat expand_capacity(CC_ArraySized *ar)
     memcpy(new_buff, ar->buffer, ar->size * ar->data_length);
 
     ar->mem_free(ar->buffer);
-    ar->buffer = new_buff;
+    ar->buffer   = new_buff;
+    ar->capacity = new_capacity;
 
     return CC_OK;
 }
